@@ -100,6 +100,69 @@ fn split_items(ts: TokenStream) -> Vec<(TokenStream, Option<TokenStream>)> {
     items
 }
 
+/// impl headers nested anywhere inside a token stream (helper impls that the templates put into fn bodies)
+fn nested_headers(ts: TokenStream, acc: &mut Vec<TokenStream>) {
+    let mut cur: Option<TokenStream> = None;
+    for tt in ts {
+        match &tt {
+            TokenTree::Ident(i) if i == "impl" && cur.is_none() => {
+                let mut t = TokenStream::new();
+                t.extend(std::iter::once(tt.clone()));
+                cur = Some(t);
+            },
+            TokenTree::Group(g) => {
+                if g.delimiter() == Delimiter::Brace {
+                    if let Some(h) = cur.take() {
+                        acc.push(h);
+                    }
+                } else if let Some(c) = cur.as_mut() {
+                    c.extend(std::iter::once(tt.clone()));
+                }
+                nested_headers(g.stream(), acc);
+            },
+            TokenTree::Punct(p) if p.as_char() == ';' => {
+                cur = None;
+            },
+            _ => {
+                if let Some(c) = cur.as_mut() {
+                    c.extend(std::iter::once(tt.clone()));
+                }
+            },
+        }
+    }
+}
+
+fn describe_header(hdr: TokenStream, out: &mut String) {
+    match syn::parse2::<Hdr>(hdr) {
+        Ok(h) => {
+            let (tr, self_ty) = match h.second {
+                Some(s) => (Some(h.first), s),
+                None => (None, h.first),
+            };
+            out.push_str(",\"trait\":");
+            match tr {
+                Some(t) => esc(&t.to_token_stream().to_string(), out),
+                None => out.push_str("null"),
+            }
+            out.push_str(",\"self\":");
+            esc(&self_ty.to_token_stream().to_string(), out);
+            out.push_str(",\"params\":");
+            list(h.generics.params.iter().map(|p| p.to_token_stream().to_string()).collect(), out);
+            out.push_str(",\"where\":");
+            list(
+                h.where_
+                    .map(|w| w.predicates.iter().map(|p| p.to_token_stream().to_string()).collect())
+                    .unwrap_or_default(),
+                out,
+            );
+        },
+        Err(e) => {
+            out.push_str(",\"hdr_error\":");
+            esc(&e.to_string(), out);
+        },
+    }
+}
+
 fn describe_items(ts: TokenStream, out: &mut String) {
     out.push('[');
     for (i, (hdr, body)) in split_items(ts).into_iter().enumerate() {
@@ -114,38 +177,21 @@ fn describe_items(ts: TokenStream, out: &mut String) {
             Some(b) => esc(&b.to_string(), out),
             None => out.push_str("null"),
         }
-        match syn::parse2::<Hdr>(hdr) {
-            Ok(h) => {
-                let (tr, self_ty) = match h.second {
-                    Some(s) => (Some(h.first), s),
-                    None => (None, h.first),
-                };
-                out.push_str(",\"trait\":");
-                match tr {
-                    Some(t) => esc(&t.to_token_stream().to_string(), out),
-                    None => out.push_str("null"),
+        describe_header(hdr, out);
+        if let Some(b) = &body {
+            let mut acc = Vec::new();
+            nested_headers(b.clone(), &mut acc);
+            out.push_str(",\"nested\":[");
+            for (k, h) in acc.into_iter().enumerate() {
+                if k > 0 {
+                    out.push(',');
                 }
-                out.push_str(",\"self\":");
-                esc(&self_ty.to_token_stream().to_string(), out);
-                out.push_str(",\"params\":");
-                list(
-                    h.generics.params.iter().map(|p| p.to_token_stream().to_string()).collect(),
-                    out,
-                );
-                out.push_str(",\"where\":");
-                list(
-                    h.where_
-                        .map(|w| {
-                            w.predicates.iter().map(|p| p.to_token_stream().to_string()).collect()
-                        })
-                        .unwrap_or_default(),
-                    out,
-                );
-            },
-            Err(e) => {
-                out.push_str(",\"hdr_error\":");
-                esc(&e.to_string(), out);
-            },
+                out.push_str("{\"hdr\":");
+                esc(&h.to_string(), out);
+                describe_header(h, out);
+                out.push('}');
+            }
+            out.push(']');
         }
         out.push('}');
     }
